@@ -111,8 +111,14 @@ ResDerivedNew(objs, op) ==
 \* object itself, it must not show in any other object (the driver reports "leak" otherwise)
 ResTypeEdit(objs, op) == {[post |-> objs, ret |-> "ok"]}
 
+\* the zero value of the soft resource (no type given, no method called yet) asked for a new resource
+\* at once: two entries, both without a type name, a field or an id (one step of the code, two of the model)
+ZeroEntry == [impl |-> "soft", tname |-> "", fields |-> <<>>, id |-> "", vals |-> <<>>]
+ResZeroNew(objs, op) == {[post |-> objs \o <<ZeroEntry, ZeroEntry>>, ret |-> "ok"]}
+
 Res(objs, op) ==
     CASE op.op = "New"         -> ResNew(objs, op)
+      [] op.op = "ZeroNew"     -> ResZeroNew(objs, op)
       [] op.op = "TypeEdit"    -> ResTypeEdit(objs, op)
       [] op.op = "Set"         -> ResSet(objs, op)
       [] op.op = "SetID"       -> ResSetID(objs, op)
@@ -128,7 +134,7 @@ Res(objs, op) ==
 
 \* Which ops make sense on which entries (the driver only issues these)
 Enabled(objs, op) ==
-    CASE op.op = "New" -> TRUE
+    CASE op.op \in {"New", "ZeroNew"} -> TRUE
       [] OTHER ->
          /\ Live(objs, op.h)
          /\ LET e == objs[op.h] IN
@@ -148,7 +154,7 @@ Allowed(pre, op, post, ret) == [post |-> post, ret |-> ret] \in Res(pre, op)
 
 \* C18, the frame condition: no entry other than the one acted on changes
 FrameOK(pre, op, post) ==
-    \A g \in 1..Len(pre) : (op.op = "New" \/ g # op.h) => (g <= Len(post) /\ post[g] = pre[g])
+    \A g \in 1..Len(pre) : (op.op \in {"New", "ZeroNew"} \/ g # op.h) => (g <= Len(post) /\ post[g] = pre[g])
 
 -----------------------------------------------------------------------------
 (* C17: equality helpers, judged on pairs.                                 *)
